@@ -70,6 +70,13 @@ func genLight(r *Rand, mode string) *Project {
 	nf := r.Range(2, 5)
 	names = names[:nf+1]
 	if r.Chance(1, 3) {
+		// files of the same base name in different directories (index.jst here, index.jst there)
+		names = append(names, []string{"d/b.jst", "d/e/b.jst", "d/g.jst", "d/e/c.jst"}[r.Intn(4)])
+		if r.Chance(1, 2) {
+			names = append(names, []string{"d/e/g.jst", "d/root.jst"}[r.Intn(2)])
+		}
+	}
+	if r.Chance(1, 3) {
 		// siblings whose names differ only in case are different files (on a case-sensitive file system)
 		names = append(names, []string{"B.jst", "d/C.jst", "G.JST", "B.JST"}[r.Intn(4)])
 		if r.Chance(1, 2) {
